@@ -65,7 +65,8 @@ def seeded_entries(pid):
         except (OSError, ValueError):
             meta = {}
         if meta.get("static_reach") is False:
-            continue  # kept for the record: a breaking change no sound static rule decides (DESIGN.md 11.9)
+            continue
+        kind = meta.get("kind_override", kind)  # kept for the record: a breaking change no sound static rule decides (DESIGN.md 11.9)
         out.append({"id": "seed-" + name, "prop": pid, "rule": None, "kind": kind, "edits": [], "patch": patch})
     return out
 
